@@ -962,4 +962,16 @@ def _do_export(ctx, g, disk, op, idx, st, i, cont, members, world, about_to_obse
             if cosang < 1 - 1e-4:
                 ctx.fail("file_mismatch", "export_%s facet %d normal %r is not parallel to / oriented like the facet's geometric normal %r" % (fmt, kk, nrm, gn),
                          check="normals", **sig)
+    if op["target"] == "container" and target is cont and op["update_delta"] and sp == 1 and not any(s_.trim for _, s_ in surfs):
+        # "exports of containers describe exactly this mesh": the file must have as many vertices / facets as the container's own
+        # vertices / faces views, read with the same sampling right afterwards
+        cV, cF = list(cont.vertices), list(cont.faces)
+        for m in members:
+            world[m].spacing = 1
+        n_file_v = len(fV) if fmt in ("obj", "off") else None
+        n_file_f = len(fF) if fmt in ("obj", "off") else len(tris)
+        ctx.probe("container_export_compared_with_container_mesh")
+        if (n_file_v is not None and n_file_v != len(cV)) or n_file_f != len(cF):
+            ctx.fail("file_mismatch", "export_%s of the container (sample size %r) wrote %s vertices / %d faces, the container's own vertices / faces views "
+                     "have %d / %d" % (fmt, tuple(cont.sample_size), n_file_v, n_file_f, len(cV), len(cF)), check="container_vs_export", **sig)
     ctx.probe("mesh_file_checked:" + fmt)
